@@ -39,6 +39,33 @@ Fixpoint ntp_hist (p : ntp_packet) (ops : list value) : option (list value) :=
   | _ => None
   end.
 
+(* oracle of a history on one Packet and one buffer.  cur = the 48 bytes the packet is known to
+   encode to (after a successful decode of b: the first 48 bytes of b; after an encode: its output;
+   a setter changes byte 0 only; a failed decode or setter leaves the packet as it was) *)
+Fixpoint ntp_hist_ok (cur : option (list Z)) (ops obs : list value) : bool :=
+  match ops, obs with
+  | [], [] => true
+  | VL op :: ops', ob :: obs' =>
+      match op, ob with
+      | [VZ 0], VB e =>
+          (length e =? 48)%nat && bytes_okb e &&
+          match cur with Some c => zlist_eqb c e | None => true end && ntp_hist_ok (Some e) ops' obs'
+      | [VZ 1; VB b], VL [VZ ok; VL _] =>
+          if (length b <? 48)%nat then negb (zb ok) && ntp_hist_ok cur ops' obs'
+          else zb ok && ntp_hist_ok (Some (firstn 48 b)) ops' obs'
+      | [VZ 5; VL _], _ => ntp_hist_ok None ops' obs'
+      | [VZ kk; VZ v], VL [VZ pan; VZ lvm; VZ li; VZ vn; VZ md] =>
+          lvm_agree lvm li vn md &&
+          match cur with
+          | Some (c0 :: t) => C14_ntp_set_ok (kk - 2) c0 v (zb pan) li vn md &&
+                              ntp_hist_ok (Some ((if zb pan then c0 else lvm) :: t)) ops' obs'
+          | _ => ntp_hist_ok None ops' obs'
+          end
+      | _, _ => false
+      end
+  | _, _ => false
+  end.
+
 Definition glue_ntp (k : string) (a o : list value) : option verdict :=
   if is k "ntp.enc" then
     match a with
@@ -88,7 +115,8 @@ Definition glue_ntp (k : string) (a o : list value) : option verdict :=
     | [VL f; VL ops] =>
         match getZs f with
         | Some zs => match ntp_hist (ntp_of_list zs) ops with
-                     | Some os => Some (functional [VL os] o true)
+                     | Some os => Some (functional [VL os] o
+                                          (match o with [VL obs] => ntp_hist_ok None ops obs | _ => false end))
                      | None => None end
         | None => None end
     | _ => None end
@@ -187,6 +215,34 @@ Fixpoint cs_hist (k : Z) (st : list Z * list Z) (ops : list value) : option (lis
   | _ => None
   end.
 
+(* oracle of a history on one value v and one buffer buf.  cur = the bytes v is known to encode to
+   (after a successful decode of b: the declared-length prefix of b, padding of a request TLV as zeros) *)
+Fixpoint cs_hist_ok (k : Z) (v buf : list Z) (cur : option (list Z)) (ops obs : list value) : bool :=
+  match ops, obs with
+  | [], [] => true
+  | VL op :: ops', ob :: obs' =>
+      match op, ob with
+      | [VZ 0], VL [VZ pan; VB e] =>
+          let n := spec_len k (nth 4 v 0) in
+          if (length buf <? n)%nat then zb pan && zl_eqb e buf && cs_hist_ok k v buf cur ops' obs'
+          else negb (zb pan) && (length e =? length buf)%nat && zl_eqb (skipn n e) (skipn n buf) &&
+               match cur with Some c => zl_eqb (firstn n e) c | None => true end &&
+               cs_hist_ok k v e (Some (firstn n e)) ops' obs'
+      | [VZ 1; VB b], VL [VZ ok; VL f] =>
+          match getZs f with
+          | Some v' =>
+              let nb := if (length b <? 14)%nat then (if k =? 0 then 44%nat else 14%nat) else spec_len k (nth 13 b 0) in
+              if (length b <? nb)%nat then negb (zb ok) && cs_hist_ok k v' buf None ops' obs'
+              else zb ok &&
+                   cs_hist_ok k v' buf (Some (if k =? 1 then (firstn 14 b ++ repeat 0 (nb - 14))%list else firstn nb b)) ops' obs'
+          | None => false end
+      | [VZ 2; VB nb], _ => cs_hist_ok k v nb cur ops' obs'
+      | [VZ 3; VL f], _ => match getZs f with Some v' => cs_hist_ok k v' buf None ops' obs' | None => false end
+      | _, _ => false
+      end
+  | _, _ => false
+  end.
+
 Definition glue_csptp (k : string) (a o : list value) : option verdict :=
   if is k "csptp.msg.enc" then cs_enc_case 0 a o
   else if is k "csptp.req.enc" then cs_enc_case 1 a o
@@ -199,7 +255,8 @@ Definition glue_csptp (k : string) (a o : list value) : option verdict :=
     | [VZ kk; VL f; VB buf; VL ops] =>
         match getZs f with
         | Some v => match cs_hist kk (v, buf) ops with
-                    | Some os => Some (functional [VL os] o true)
+                    | Some os => Some (functional [VL os] o
+                                         (match o with [VL obs] => cs_hist_ok kk v buf None ops obs | _ => false end))
                     | None => None end
         | None => None end
     | _ => None end
@@ -273,6 +330,24 @@ Fixpoint split_last {A} (l : list A) : option (list A * A) :=
   | x :: r => match split_last r with Some (i, z) => Some (x :: i, z) | None => None end
   end.
 
+(* the record-level meaning of `calls` calls (no bytes): None = no claim *)
+Fixpoint ke_spec_run (calls : nat) (rs : list ke_record) (d : ke_data) (trailing : bool) : option (list value) :=
+  match calls with
+  | O => Some []
+  | S c =>
+      match rs, trailing with
+      | [], true => None   (* bytes that are not records follow: no claim *)
+      | _, _ =>
+          match ke_spec rs d with
+          | Some (d', e, lft) =>
+              let o := VL [ke_data_val d'; VZ e] in
+              if e =? 0 then match ke_spec_run c lft d' trailing with Some os => Some (o :: os) | None => None end
+              else Some [o]
+          | None => None
+          end
+      end
+  end.
+
 Definition glue_ntske (k : string) (a o : list value) : option verdict :=
   if is k "ke.records" then
     match a with
@@ -284,6 +359,13 @@ Definition glue_ntske (k : string) (a o : list value) : option verdict :=
             let oracle := match o with
               | [VB _; VL results] =>
                   ke_same results &&
+                  (* what the records mean, record by record and call by call (End, Error, Warning,
+                     end of stream included), whatever the segmentation *)
+                  match ke_spec_run (Z.to_nat calls) rs d0 (negb (length rest =? 0)%nat), results with
+                  | Some want, VL [VL got; VB _] :: _ => value_eqb (VL want) (VL got)
+                  | Some _, _ => false
+                  | None, _ => true
+                  end &&
                   (* canonical records closed by End, read by one call: the data they spell *)
                   match split_last rs with
                   | Some (body, REnd) =>
@@ -344,8 +426,17 @@ Definition glue_cookie (k : string) (a o : list value) : option verdict :=
     match a with
     | [VZ which; VB b; c0v] =>
         match ck_val_of c0v with
-        | Some c0 => let d := ck_decode (ck_types_of which) c0 b in
-                     Some (functional [vbool (snd d); ck_val_val (fst d)] o true)
+        | Some c0 =>
+            let ty := ck_types_of which in
+            let d := ck_decode ty c0 b in
+            let re := if snd d then ck_encode ty (fst d) else [] in
+            let d2 := ck_decode ty (0, [], []) re in
+            (* decoding is total; what it returns, encoded and decoded again, is the same cookie *)
+            let oracle := match o with
+              | [VZ ok; dv; VB _; VZ ok2; dv2] => if zb ok then zb ok2 && value_eqb dv dv2 else true
+              | _ => false end in
+            Some (functional ([vbool (snd d); ck_val_val (fst d); VB re] ++
+                              (if snd d then [vbool (snd d2); ck_val_val (fst d2)] else [vbool false; VL []]))%list o oracle)
         | None => None end
     | _ => None end
   else if is k "ck.crypt" then
@@ -416,48 +507,118 @@ Definition glue_nts (k : string) (a o : list value) : option verdict :=
   if is k "nts.enc" then
     match a, o with
     | [VB hdr; VB tail; VB id; VL cs; VL ps; VB _; VB pt; VB tape; VL bodiesv; VZ structured],
-      [VZ pan; VB enc; VZ derr; dv; VZ authok; VL afterv] =>
+      [VZ pan; VB enc; VZ derr; dv; VZ authok; VL afterv; VB truect; VL [VZ fcok; VB fc]] =>
         match getBs cs, getBs ps, getBs bodiesv with
         | Some cookies, Some phs, Some bodies =>
             let p := {| ni_id := id; ni_cookies := cookies; ni_placeholders := phs |} in
             let nonce := firstn 16 tape in
-            (* the ciphertext is the AEAD's business: it is read off the observed encoding at the
-               place the format puts it (len(plaintext) + 16 bytes after the 16-byte nonce) *)
+            (* the ciphertext is the AEAD's business: the harness seals the same plaintext over the
+               bytes before the authenticator with an AEAD of its own *)
+            let ct := truect in
             let authpos := (48 + field_len id + sum_field_lens cookies + sum_field_lens phs)%nat in
             let ctlen := (length pt + 16)%nat in
-            let ct := zpad ctlen (skipn (authpos + 24) enc) in
             let wire_len := (authpos + 8 + 16 + pad4len ctlen)%nat in
             let fits := (wire_len <=? 1024)%nat in
             let expected :=
               match nts_encode hdr tail p nonce ct with
               | Ok e => let d := nts_decode nts_pkt_empty e in
-                        (* the receiver opens the authenticator (the AEAD returns the plaintext) and
-                           walks the decrypted fields; a packet cut at the size limit does not open *)
+                        let '(_, _, n', c') := np_auth (fst d) in
+                        (* accepted iff the authenticator is found where it is and carries the nonce
+                           and the complete ciphertext (a packet cut at the size limit does not) *)
+                        let found := match nts_auth_pos (length e) e 48 with
+                                     | Some q => (q =? authpos)%nat && zs_eqb n' nonce && zs_eqb c' ct
+                                     | None => false end in
                         let w := nts_auth_walk (length pt) pt 0 (np_cookies (fst d)) in
-                        if fits then
-                          [VZ 0; VB e; VZ (snd d); nts_pkt_val (fst d);
-                           vbool ((snd d =? 0) && (snd w =? 0));
-                           if snd d =? 0 then cookie_vals (fst w) else VL []]
-                        else [VZ 0; VB e; VZ (snd d); nts_pkt_val (fst d); VZ authok; VL afterv]
-              | _ => [VZ 1; VB []; VZ 0; VL []; VZ 0; VL []]
+                        [VZ 0; VB e; VZ (snd d); nts_pkt_val (fst d);
+                         vbool ((snd d =? 0) && found && (snd w =? 0));
+                         (if snd d =? 0 then cookie_vals (if found then fst w else np_cookies (fst d)) else VL []);
+                         VB truect;
+                         match np_cookies (fst d) with
+                         | [] => VL [VZ 0; VB []]
+                         | c :: _ => VL [VZ 1; VB (ext_value c)] end]
+              | _ => [VZ 1; VB []; VZ 0; VL []; VZ 0; VL []; VB []; VL [VZ 0; VB []]]
               end in
-            (* the property speaks about packets that have a wire form: identifier of at
-               least 32 bytes, everything within the maximum packet length *)
             let oracle :=
-              if (32 <=? length id)%nat && fits then
-                negb (zb pan) &&
+              if negb (length hdr =? 48)%nat then true
+              else if (32 <=? length id)%nat && fits then
+                (* the property speaks about packets that have a wire form: identifier of at
+                   least 32 bytes, everything within the maximum packet length *)
+                negb (zb pan) && (length truect =? ctlen)%nat &&
                 match nts_pkt_of dv with
                 | Some d => C14_nts_ok hdr p nonce ct enc derr d
                 | None => false end &&
+                (* FirstCookie is the first cookie that was encoded *)
+                match cookies with
+                | c0 :: _ => zb fcok && zs_eqb (firstn (length c0) fc) c0
+                | [] => negb (zb fcok) end &&
                 (* cookie fields inside the encrypted part come back as cookies, after the clear ones *)
                 (if zb structured then
                    zb authok && match ext_vals_of afterv with
                                 | Some after => C14_resp_cookies_ok (cookies ++ bodies)%list after
                                 | None => false end
                  else true)
+              else if negb (zb pan) && negb fits then
+                (* a packet that did not fit was cut: it must not be accepted as if complete *)
+                negb (zb authok) ||
+                match nts_pkt_of dv with
+                | Some d => let '(_, _, _, c') := np_auth d in zs_eqb c' truect
+                | None => false end
               else true in
             Some (functional expected o oracle)
         | _, _, _ => None end
+    | _, _ => None end
+  else if is k "nts.redec" then
+    match a, o with
+    | [VB b; VB _; VB tape], [VZ derr; dv; VZ pan2; VB enc2; VZ derr2; dv2; VB truect] =>
+        let d := nts_decode nts_pkt_empty b in
+        let p := {| ni_id := ext_value (np_uid (fst d)); ni_cookies := map ext_value (np_cookies (fst d));
+                    ni_placeholders := map (fun c => repeat 0 (Z.to_nat (snd c - 4))) (np_placeholders (fst d)) |} in
+        let expected :=
+          if negb (snd d =? 0) || (length b <? 48)%nat then [VZ (snd d); nts_pkt_val (fst d); VZ 0; VB []; VZ 0; VL []; VB []]
+          else match nts_encode (firstn 48 b) [] p (firstn 16 tape) truect with
+               | Ok e2 => let d2 := nts_decode nts_pkt_empty e2 in
+                          [VZ 0; nts_pkt_val (fst d); VZ 0; VB e2; VZ (snd d2); nts_pkt_val (fst d2); VB truect]
+               | _ => [VZ 0; nts_pkt_val (fst d); VZ 1; VB []; VZ 0; VL []; VB []]
+               end in
+        (* idempotence, on the implementation's own observations: what the decoder returned, encoded
+           (if it fits) and decoded again, is the same identifier, cookies and placeholders *)
+        let oracle :=
+          (derr <=? 5) &&
+          if derr =? 0 then
+            match nts_pkt_of dv with
+            | Some d1 =>
+                let id := ext_value (np_uid d1) in
+                let cookies := map ext_value (np_cookies d1) in
+                let phs := map (fun c => repeat 0 (Z.to_nat (snd c - 4))) (np_placeholders d1) in
+                let wl := (48 + field_len id + sum_field_lens cookies + sum_field_lens phs + 40)%nat in
+                if (wl <=? 1024)%nat then
+                  negb (zb pan2) && (derr2 =? 0) &&
+                  match nts_pkt_of dv2 with
+                  | Some d2 => field_ok ext_unique_id id (np_uid d2) && fields_ok ext_cookie cookies (np_cookies d2)
+                               && placeholders_ok phs (np_placeholders d2)
+                  | None => false end
+                else true
+            | None => false end
+          else true in
+        Some (functional expected o oracle)
+    | _, _ => None end
+  else if is k "nts.fmt" then
+    match a, o with
+    | [VB prefix; VB nonce; VB ct; VZ wf], [VB b; VZ derr; dv] =>
+        let e := (prefix ++ auth_field nonce ct)%list in
+        let d := nts_decode nts_pkt_empty e in
+        (* a nonce whose length is a multiple of 4 (the project's own: 16) comes back with its
+           ciphertext; for other lengths the decoder misreads the ciphertext (theorem
+           C14_nts_nonce_padding_refuted): no claim, the model says what happens *)
+        let oracle :=
+          if zb wf && (length nonce mod 4 =? 0)%nat && (28 <=? 8 + length nonce + pad4len (length ct))%nat
+             && (length e <=? 1024)%nat then
+            (derr =? 0) &&
+            match nts_pkt_of dv with
+            | Some dd => let '(t, _, n', c') := np_auth dd in (t =? ext_authenticator) && zs_eqb n' nonce && zs_eqb c' ct
+            | None => false end
+          else true in
+        Some (functional [VB e; VZ (snd d); nts_pkt_val (fst d)] o oracle)
     | _, _ => None end
   else if is k "nts.resp" then
     match a, o with
@@ -599,7 +760,13 @@ Definition glue_nts (k : string) (a o : list value) : option verdict :=
   else if is k "nts.dec" then
     match a with
     | [VL bs] => match nts_dec_hist nts_pkt_empty bs with
-                 | Some os => Some (functional [VL os] o true)
+                 | Some os =>
+                     (* the decoder is total: every input ends in success or one of its five error
+                        classes (idempotence of its output: kind nts.redec) *)
+                     let oracle := match o with
+                       | [VL obs] => forallb (fun ob => match ob with VL [VZ e; _] => (0 <=? e) && (e <=? 5) | _ => false end) obs
+                       | _ => false end in
+                     Some (functional [VL os] o oracle)
                  | None => None end
     | _ => None end
   else None.
